@@ -980,6 +980,10 @@ func (ex *Exec) checkPost(fr *Frame, rv []Val, ins *ssa.Return) {
 	ex.curResults = ex.resultHandles(env)
 	for i, en := range c.Ensures {
 		name := fmt.Sprintf("%03d", i)
+		if en.Label == "trusted" {
+			ex.note("trusted postcondition of " + relName(fr.fn) + " (assumed by callers, not checked): " + en.Text)
+			continue
+		}
 		// postconditions are judged independently of each other (no assume after assert)
 		n := len(ex.st.pc)
 		// a local variable the clause mentions but that does not exist on this return path makes the clause false here
